@@ -16,19 +16,20 @@ package file
 // below 2^62 in magnitude (listed as an arithmetic assumption).
 
 //@ func (*file.singleNodeFile).AsLargeBytes
+//@ ensures no-load: loads == old(loads)
 //@ ensures err == nil && result != nil && fresh(result) && typeis(result, "*file.singleNodeReader")
 //@ ensures result.(*file.singleNodeReader).offset == 0 && result.(*file.singleNodeReader).Node == f
 //@ assigns nothing
 
 //@ func (*file.singleNodeReader).Seek
-//@ requires -(1 << 62) < offset && offset < (1 << 62)
+//@ domain no-wrap: -(1 << 62) < offset && offset < (1 << 62)
 //@ ensures load-error: nodeBytesErr(f.Node) != nil ==> err != nil && f.offset == old(f.offset)
 //@ ensures negative-target-is-error: nodeBytesErr(f.Node) == nil && seekTarget(whence, offset, old(f.offset), len(nodeBytes(f.Node))) < 0 ==> err != nil && f.offset == old(f.offset)
 //@ ensures lands-on-target: nodeBytesErr(f.Node) == nil && seekTarget(whence, offset, old(f.offset), len(nodeBytes(f.Node))) >= 0 ==> err == nil && result == seekTarget(whence, offset, old(f.offset), len(nodeBytes(f.Node))) && f.offset == result
 //@ assigns f.offset
 
 //@ func (*file.singleNodeReader).Read
-//@ requires no-alias: base(p) != base(nodeBytes(f.Node))
+//@ domain no-alias: base(p) != base(nodeBytes(f.Node))
 //@ ensures load-error: nodeBytesErr(f.Node) != nil ==> result == 0 && err != nil && f.offset == old(f.offset)
 //@ ensures eof-at-or-past-end: nodeBytesErr(f.Node) == nil && old(f.offset) >= len(nodeBytes(f.Node)) ==> result == 0 && err == io.EOF && f.offset == old(f.offset)
 //@ ensures count: nodeBytesErr(f.Node) == nil && old(f.offset) < len(nodeBytes(f.Node)) ==> err == nil && result == min64(len(p), len(nodeBytes(f.Node)) - old(f.offset)) && f.offset == old(f.offset) + result
@@ -36,6 +37,7 @@ package file
 //@ assigns f.offset, mem(p)
 
 //@ func (*file.shardNodeFile).AsLargeBytes
+//@ ensures no-load: loads == old(loads)
 //@ ensures err == nil && result != nil && fresh(result) && typeis(result, "*file.shardNodeReader")
 //@ ensures result.(*file.shardNodeReader).offset == 0 && result.(*file.shardNodeReader).rdr == nil && result.(*file.shardNodeReader).shardNodeFile == s
 //@ assigns nothing
@@ -46,7 +48,7 @@ package file
 //@ assigns file.shardNodeFile.metadata, file.shardNodeFile.unpackLk
 
 //@ func (*file.shardNodeReader).Seek
-//@ requires -(1 << 62) < offset && offset < (1 << 62) && -(1 << 62) < s.offset && s.offset < (1 << 62) && -(1 << 62) < flen(s.shardNodeFile) && flen(s.shardNodeFile) < (1 << 62)
+//@ domain no-wrap: -(1 << 62) < offset && offset < (1 << 62) && -(1 << 62) < s.offset && s.offset < (1 << 62) && -(1 << 62) < flen(s.shardNodeFile) && flen(s.shardNodeFile) < (1 << 62)
 //@ ensures negative-target-is-error: seekTarget(whence, offset, old(s.offset), flen(s.shardNodeFile)) < 0 ==> err != nil && s.offset == old(s.offset) && s.rdr == old(s.rdr)
 //@ ensures lands-on-target: seekTarget(whence, offset, old(s.offset), flen(s.shardNodeFile)) >= 0 ==> err == nil && result == seekTarget(whence, offset, old(s.offset), flen(s.shardNodeFile)) && s.offset == result && s.rdr == nil
 //@ assigns s.offset, s.rdr, file.shardNodeFile.metadata, file.shardNodeFile.unpackLk
@@ -66,11 +68,13 @@ package file
 //@ assigns nothing
 
 //@ func file.newWrappedNode
+//@ ensures no-load: loads == old(loads)
 //@ ensures err == nil ==> result != nil && fresh(result) && typeis(result, "*file.singleNodeFile") && fileSubstrate(result) == substrate
 //@ ensures err != nil ==> result == nil
 //@ assigns nothing
 
 //@ func file.NewUnixFSFile
+//@ ensures no-load: loads == old(loads)
 //@ ensures substrate-preserved: err == nil ==> result != nil && (typeis(result, "*file.singleNodeFile") || typeis(result, "*file.shardNodeFile")) && fileSubstrate(result) == substrate
 //@ ensures err != nil ==> result == nil
 //@ assigns nothing
@@ -100,7 +104,8 @@ package file
 //@ assigns file.shardNodeFile.metadata, file.shardNodeFile.unpackLk
 
 //@ func (*file.shardNodeReader).makeReader
-//@ requires sizesOK(s.shardNodeFile) && 0 <= s.offset && s.offset < (1 << 62)
+//@ loop 0 invariant skipped-children-are-not-opened: len(readers) == 0 ==> loads == old(loads)
+//@ domain well-sized: sizesOK(s.shardNodeFile) && 0 <= s.offset && s.offset < (1 << 62)
 //@ loop 0 invariant pos-algebra: 0 <= itpos(lnkIter) && itpos(lnkIter) <= itlen(lnkIter) && itlen(lnkIter) == nkids(s.shardNodeFile) && at == startOf(s.shardNodeFile, itpos(lnkIter))
 //@ inst pos-algebra: f: s.shardNodeFile
 //@ inst pos-algebra: i: itpos(lnkIter) - 1
@@ -111,3 +116,16 @@ package file
 //@ ensures total-length: err == nil ==> s.len == startOf(s.shardNodeFile, nkids(s.shardNodeFile)) && s.offset < s.len
 //@ ensures eof-iff-past-end: err == io.EOF && result == nil ==> true
 //@ ensures position-unchanged: s.offset == old(s.offset)
+
+// ---------------------------------------------------------------------------------------------
+// C05: constructing file nodes and readers, and seeking, request no block from storage.
+//@ props C05
+//@ func file.newDeferredFileNode
+//@ ensures result != nil && fresh(result)
+//@ ensures no-load: loads == old(loads)
+//@ assigns nothing
+
+//@ func (*file.deferred).AsLargeBytes
+//@ ensures err == nil && result != nil && fresh(result)
+//@ ensures no-load: loads == old(loads)
+//@ assigns nothing
